@@ -102,7 +102,12 @@ fn damages(toks: &[String], lang: &Lang, r: &Renderer, out: &mut Vec<(&'static s
         }
         positions.push(text.len());
         for p in positions {
+            // inside an array literal blanks (also a tab) belong to the literal
+            let in_array = text[..p].rfind('[').map(|o| !text[o..p].contains(']')).unwrap_or(false);
             for ill in ILLEGAL {
+                if in_array && ill == "\t" {
+                    continue;
+                }
                 let mut s = text.clone();
                 s.insert_str(p, ill);
                 out.push(("insert-illegal-character", s));
@@ -207,7 +212,7 @@ pub fn run(tier: Tier) -> i32 {
     let lv = lang_val();
     let vt = lv.table.clone();
     let a_v = Alphabet {
-        leaves: vec![Tree::Lit("1".into()), Tree::Lit("2.5".into()), Tree::Lit("true".into()), Tree::var("x")],
+        leaves: vec![Tree::Lit("1".into()), Tree::Lit("2.5".into()), Tree::Lit("true".into()), Tree::var("x"), Tree::Lit("[1.5,2]".into())],
         uns: ops(&vt, &["-", "to_int"]),
         bins: ops(&vt, &["+", "-", "==", "<=", "&&", "if", "else", "min", "%"]),
     };
